@@ -471,6 +471,66 @@ Fixpoint check_lm_states (step : q_lm_state -> q_lm_state) (st : q_lm_state) (ob
 Definition check_lm_iters (co : list (Q * Q * Q)) (x0 : Q) (nu0 : Q) (obs : list (list Q)) : bool :=
   check_lm_states (q_lm_step (qco co) (qc nu0)) (q_lm_init (qco co) [qc x0]) obs.
 
+(* --- LM: step-by-step trace of (x_i, J^T J + nu_i I, nu_i == 0) over arbitrarily many iterations ---
+   One-step correspondence from the OBSERVED point: the model is re-started at every observed x_i (exact rational of the
+   float) with its own nu_i (nu takes only the values |g_0| 2^k, nu0 2^k and 0, which are exact in floating point), so no
+   rational blow-up and no drift; it must reproduce the matrix handed to the linear solver, whether nu is zero, and the
+   next point x_{i+1}.  When a branch decision of the step is within rounding of flipping (the gain ratio within 1e-6 of
+   0, 1/4, 3/4; f - ftemp in the cancellation regime |num| <= 1e-9 |f|; nu/2 within 1e-9 of nu0; the user's residual
+   polynomial itself evaluated with >= 6 digits of cancellation at the current or the trial point) the float run may
+   legitimately take the other branch and the comparison of this trace ends there. *)
+Definition q_half_sq := half_sq Qc 0%Qc 1%Qc Qcplus Qcmult Qcdiv.
+Definition q_lm_state_at (co : list (Qc * Qc * Qc)) (x nu : Qc) : q_lm_state :=
+  let xv := [x] in let r := quadF co xv in let J := quadJ co xv in
+  let g := qmattvec 1 J r in
+  mk_lm Qc xv r J (q_half_sq r) nu g (q_norm1 g).
+Definition q_near (a : Qc) (c : Q) (eps : Q) : bool := Qle_bool (Qabs (this a - c)) eps.
+Definition q_lm_matrix (st : q_lm_state) : list (list Qc) := lm_matrix Qc 0%Qc 1%Qc Qcplus Qcmult 1 (lm_J Qc st) (lm_nu Qc st).
+(* the float evaluation of a residual a x^2 + b x + c (the USER's function, not LM) loses >= 6 digits by cancellation *)
+Definition quad_cancels (co : list (Qc * Qc * Qc)) (x : list Qc) : bool :=
+  match x with
+  | [v] => existsb (fun abc => let '(a, b, c) := abc in
+                      let S := (Qabs (this (a * v * v)%Qc) + Qabs (this (b * v)%Qc) + Qabs (this c))%Q in
+                      negb (Qle_bool S 0) && Qle_bool (Qabs (this (a * v * v + b * v + c)%Qc)) ((1 # 1000000) * S)) co
+  | _ => false
+  end.
+Definition lm_undecidable (co : list (Qc * Qc * Qc)) (nu0 : Qc) (st : q_lm_state) : bool :=
+  let x := lm_x Qc st in let nu := lm_nu Qc st in
+  let s := q_solve1 (q_lm_matrix st) (lm_g Qc st) in
+  let xtemp := qvsub x s in
+  let ftemp := q_half_sq (quadF co xtemp) in
+  let num := (lm_f Qc st - ftemp)%Qc in
+  let ratio := lm_ratio Qc 0%Qc 1%Qc Qcplus Qcmult Qcminus Qcopp Qcdiv qc_leb (lm_f Qc st) ftemp x xtemp (lm_g Qc st) in
+  quad_cancels co x || quad_cancels co xtemp
+  || Qle_bool (Qabs (this num)) ((1 # 1000000000) * Qabs (this (lm_f Qc st)))
+  || q_near ratio 0 (1 # 1000000) || q_near ratio (1 # 4) (1 # 1000000) || q_near ratio (3 # 4) (1 # 1000000)
+  || Qle_bool (Qabs (this nu / 2 - this nu0)) ((1 # 1000000000) * this nu0).
+Definition m11 (M : list (list Qc)) : Qc := match M with [[a]] => a | _ => 0%Qc end.
+Fixpoint check_lm_trace (co : list (Qc * Qc * Qc)) (nu0 nu : Qc) (xs : list Q) (Ms : list (Q * bool)) : bool :=
+  match xs with
+  | [] => true
+  | x :: rest =>
+      match rest, Ms with
+      | x' :: _, (M, z) :: Ms' =>
+          let st := q_lm_state_at co (qc x) nu in
+          let Mm := m11 (q_lm_matrix st) in
+          qc_close tol9 (qc M) Mm &&
+          (* `nu == 0` as observed (the matrix equals the float J^T J bit for bit); not decidable from the matrix when
+             a non-zero nu is below the rounding of J^T J *)
+          (Bool.eqb z (qc_eqb nu 0%Qc) || (negb (qc_eqb nu 0%Qc) && Qle_bool (this nu) ((1 # 1000000000000) * Qabs (this Mm)))) &&
+          (if lm_undecidable co nu0 st then true
+           else let st' := q_lm_step co nu0 st in
+                qcl_close tol9 (qvec [x']) (lm_x Qc st') && check_lm_trace co nu0 (lm_nu Qc st') rest Ms')
+      | _, _ => true
+      end
+  end.
+Definition check_lm_trace_run (co : list (Q * Q * Q)) (x0 nu0 : Q) (xs : list Q) (Ms : list (Q * bool)) : bool :=
+  let c := qco co in
+  match xs with
+  | x :: _ => Qeq_bool x x0 && check_lm_trace c (qc nu0) (lm_nu Qc (q_lm_init c [qc x0])) xs Ms
+  | [] => false
+  end.
+
 (* --- wrappers --- *)
 Definition q_eqb_opt (a b : option (list Q)) : bool := opt_eqb ql_eqb a b.
 Definition info_eqb (a b : wr_info) : bool :=
